@@ -330,7 +330,7 @@ PROPS = {
  },
  "C10": {
   "modules": ["OsmoVerif.Props.C10", "OsmoVerif.Props.TieGenTwap"],
-  "min_theorems": 36,
+  "min_theorems": 38,
   "fingerprints": ["Twap.*"],
   "engines": [{"name": "twap", "kind": "app", "n": {"quick": 5000, "thorough": 40000}, "shards": {"quick": 4, "thorough": 16}, "env": NO_EXPORT_IMPORT}],
   "rule": "two kinds of histories, half of the op budget each.  SINGLE-POOL: a fresh balancer (2 or 3 assets; random / unit / power-of-two / extreme balances and weights) or "
@@ -344,8 +344,18 @@ PROPS = {
           "to the key separator); every block moves the price of a random subset of the pools; one block in four repeats its predecessor's timestamp with messages directed at pools "
           "updated in the predecessor (update rejected: record exists for this time) AND at untouched pools on both sides in changed-pool order; pruning passes with cutoffs on / 1 ns "
           "next to record times and per-block limits 5..200, before/after which every ordered pair of every active pool is asked both strategies on intervals inside / at the edge of / "
-          "outside the keep window; an evaluation is one op line (record update, block, query, prune, dump, getSpotPrices); non-trivial = answered query or state-changing op; "
-          "distinct = distinct op lines",
+          "outside the keep window.  TIME REPRESENTATION (twap_time_test.go): every question is asked with its two instants handed over as UTC, t.In(fixed zone UTC+5 / UTC-8 / +00:20 / "
+          "+14:00 / -12:00 or tz database zone America/Los_Angeles, Asia/Kolkata, Australia/Lord_Howe, Pacific/Kiritimati), time.Unix(sec, nsec) with time.Local set to such a zone (and "
+          "the host's), time.Parse(RFC3339Nano) of a string with an offset, time.Now().Add(..) (monotonic reading), start and end in two different zones; the primary question (model, "
+          "own-log oracle) draws one of them, and 1-2 variants through the keeper API / client.Querier / the app's gRPC query router are compared with the UTC answer "
+          "(query:answer-depends-on-time-location:*, query:answer-depends-on-api-path:*); one history in six hands FinalizeBlock / the next header a time with a non-UTC Location "
+          "(observation counters only: the SDK context normalises it).  SUB-MILLISECOND STRUCTURE: block times on a millisecond boundary, 1-2 ns before / 1 ns after it, 0.3 / 0.7 ms into "
+          "it; query times on and 1 ns around the boundaries next to record times; DIRECTED drain / refill histories (40% of the single-pool budget) on a concentrated pool (last position "
+          "withdrawn / re-created) and on a balancer pool whose price sits at the 10^-18 rounding boundary (half-reserve swaps push it to zero and back), the drain record, the recovery "
+          "record and the query start in the same millisecond / adjacent milliseconds / within 1 s / far apart, records inside the error period, error period from creation; every point "
+          "(start = end) and interval around the last five records is asked with both strategies and judged from the engine's own log of block times and own pool reads "
+          "(errorflag:not-flagged:* / errorflag:spurious:* / errorflag:strategies-disagree:*).  An evaluation is one op line (record update, block, query, prune, dump, getSpotPrices); "
+          "non-trivial = answered query or state-changing op; distinct = distinct op lines",
   "trusted_base": ["osmomath Exp2 / LogBase2 / SigFigRound as modelled in C13 (bit-exact, analytic bounds unproved)",
                    "700-bit big.Float references (harness/engines/app/bigfloat_test.go) for the geometric clauses",
                    "the pool modules' spot prices are inputs (the engine's own read of the pool at the end of the block, cross-checked against the stored record)",
